@@ -476,7 +476,7 @@ def run(ctx):
             ctx.count("scripted_hop_histories")
             if stats.get("hits_after_mutation", 0) > before:
                 ctx.nontrivial(ops)
-    nhist = 260 if quick else 900
+    nhist = ctx.n(260 if quick else 900)
     nhops = 6 if quick else 12
     for i in range(nhist):
         ops = generate_history(rng, rng.randint(60, 200), with_hop=(i < nhops))
